@@ -232,6 +232,11 @@ func sumPrefix(p *Prog, v ssa.Value, n int64) *ssa.Call {
 }
 
 func runC04(c *Ctx) {
+	if !importing {
+		// "a replay is treated exactly like an invalid handshake": WrapConn's failure path is kind-blind
+		// (C03's rules on WrapConn)
+		importObls(c, "C03", runC03, "X03", func(k string) bool { return containsAny(k, "WrapConn") })
+	}
 	sharedDigestRule(c, c.P, "R6", "transports/obfs4", "common/replayfilter")
 	// "accepted at most once" rests on the filter's test-and-set being one atomic step for
 	// simultaneous connections: the replay filter's own obligations (C11) are part of this
